@@ -116,6 +116,7 @@ pub fn run_grid(sim: &Sim, idx: u64) {
     sim.nontrivial();
     sim.sample(|| format!("grid cell {cell}: {:?} shape={} disable_compression={}", cfg, c02::SHAPES[shape], plan.script.disable_compression));
     sim.ev(|| format!("config: cell {cell} {:?} shape={} disable_compression={}", cfg, c02::SHAPES[shape], plan.script.disable_compression));
+    c02::draw_client_clone_mode(sim);
     let handler = Handler::new(sim);
     // a forwarding handler that re-uses upstream response metadata: `grpc-encoding` is not a
     // reserved name, but when the server negotiates an encoding itself the announced one must be
